@@ -1,11 +1,13 @@
 (* C01 - property theorems: no client traffic to an emulated service can terminate the process.
    Statements only; every proof is [exact lemma] (or a closed computation for a witness).
-   The models follow /repo after the fix: commits 1603afd (ssh), 4aa01bd (vnc), 9cc3ebb (tftp). *)
+   The models follow /repo after the fix: commits 1603afd (ssh), 4aa01bd (vnc), 9cc3ebb (tftp),
+   cb1bd7f (snmp), 59015c2 (ldap). *)
 From HT Require Import Common.Bytes C17.Model C17.Proofs C01.Model C01.Check C01.Proofs.
 Open Scope Z_scope.
 
 (* ---- the full statement, on the modelled cores: no input, segmentation or schedule
-   leads to an outcome that handle cannot confine ---- *)
+   leads to an outcome that handle cannot confine; and whatever the two ASN.1 libraries
+   allocate on a buffer the services hand them is an allocation the runtime satisfies ---- *)
 Definition C01_full : Prop :=
   (forall ty p, ssh_request ty p = ROk) /\
   (forall rs, ssh_requests rs = ROk) /\
@@ -14,20 +16,12 @@ Definition C01_full : Prop :=
   (forall dg, cs_handle dg = ROk \/ cs_handle dg = RPanic 1) /\
   (forall segs, adb_handle segs = ROk \/ adb_handle segs = RPanic 2) /\
   (forall dg s, snmp_first dg <> Some (RFatal s)) /\
+  (forall dg fuel, wf_bytes dg = true -> snmp_first dg = None ->
+     Forall (fun L => alloc_verdict L = 0%N) (lib_allocs fuel (snmp_buf dg))) /\
   (forall st s, ldap_first st <> Some (RFatal s)) /\
-  (forall seg rep s, ldap_nest seg rep <> Some (RFatal s)).
-
-(* the same with the three recorded finding classes taken out - and nothing else *)
-Definition C01_outside : Prop :=
-  (forall ty p, ssh_request ty p = ROk) /\
-  (forall rs, ssh_requests rs = ROk) /\
-  (forall stream, vnc_handle stream = ROk) /\
-  (forall dgss sched, trun (t_init (map (tftp_thread false) dgss)) sched <> TFatal) /\
-  (forall dg, cs_handle dg = ROk \/ cs_handle dg = RPanic 1) /\
-  (forall segs, adb_handle segs = ROk \/ adb_handle segs = RPanic 2) /\
-  (forall dg s, in_oom_class (snmp_tlv dg) = false -> snmp_first dg <> Some (RFatal s)) /\
-  (forall st s, in_oom_class (ldap_tlv st) = false -> ldap_first st <> Some (RFatal s)) /\
-  (forall seg rep s, ldap_depth seg rep < STACK_SURE -> ldap_nest seg rep <> Some (RFatal s)).
+  (forall st fuel, ldap_first st = None ->
+     exists buf, ldap_envelope st = EOk buf /\ zlen buf <= MAX_MSG + 6 /\
+                 Forall (fun L => alloc_verdict L = 0%N) (lib_allocs fuel buf)).
 
 (* ---- server/honeytrap.go handle: a failure inside Handle stays in the connection ---- *)
 Theorem C01_handle_confines : forall found send_ok s,
@@ -93,49 +87,57 @@ Proof. exact cs_never_fatal. Qed.
 Theorem C01_adb_never_fatal : forall segs, adb_handle segs = ROk \/ adb_handle segs = RPanic 2.
 Proof. exact adb_never_fatal. Qed.
 
-(* ---- declared-length allocation (snmp, ldap) and ber nesting (ldap): the recorded classes ---- *)
+(* ---- snmp, ldap: the structural check in front of the ASN.1 libraries ---- *)
 Theorem C01_alloc_fatal_iff : forall L, alloc_verdict L = 2%N <-> MEM_SURE < L <= MAXALLOC.
 Proof. exact alloc_fatal_iff. Qed.
 
 Theorem C01_alloc_small_fine : forall L, 0 <= L <= MEM_SAFE -> alloc_verdict L = 0%N.
 Proof. exact alloc_small_fine. Qed.
 
-Theorem C01_first_tlv_fatal_iff : forall site t s,
-  res_of_tlv site t = Some (RFatal s) <-> in_oom_class t = true /\ s = F_ALLOC.
-Proof. exact res_of_tlv_fatal_iff. Qed.
+(* tlvLengthsFit(b, depth) = true (any depth budget): every length the library allocates
+   while walking b - to any depth and extent - lies between 0 and len b *)
+Theorem C01_tlv_lengths_fit_bounds_allocations : forall d b,
+  tlv_fit d b = true -> forall fuel, Forall (fun L => 0 <= L <= zlen b) (lib_allocs fuel b).
+Proof. exact fit_bounded. Qed.
 
-Theorem C01_ldap_nest_fatal_iff : forall seg rep s,
-  ldap_nest seg rep = Some (RFatal s) <-> STACK_SURE <= ldap_depth seg rep /\ s = F_STACK.
-Proof. exact ldap_nest_fatal_iff. Qed.
+Theorem C01_snmp_never_fatal : forall dg s, snmp_first dg <> Some (RFatal s).
+Proof. exact snmp_never_fatal. Qed.
 
-Theorem C01_snmp_oom_refuted :
-  in_oom_class (snmp_tlv [48; 133; 64; 0; 0; 0; 0]%N) = true /\
-  snmp_first [48; 133; 64; 0; 0; 0; 0]%N = Some (RFatal F_ALLOC).
-Proof. vm_compute. split; reflexivity. Qed.
+Theorem C01_snmp_library_allocations_fine : forall dg fuel,
+  wf_bytes dg = true -> snmp_first dg = None ->
+  Forall (fun L => alloc_verdict L = 0%N) (lib_allocs fuel (snmp_buf dg)).
+Proof. exact snmp_library_allocs_fine. Qed.
 
-Theorem C01_ldap_oom_refuted :
-  in_oom_class (ldap_tlv [4; 133; 64; 0; 0; 0; 0]%N) = true /\
-  ldap_first [4; 133; 64; 0; 0; 0; 0]%N = Some (RFatal F_ALLOC).
-Proof. vm_compute. split; reflexivity. Qed.
+Theorem C01_ldap_envelope_checked : forall st buf,
+  ldap_envelope st = EOk buf -> tlv_lengths_fit buf = true /\ zlen buf <= MAX_MSG + 6.
+Proof. exact ldap_envelope_ok. Qed.
 
-Theorem C01_ldap_nest_refuted :
-  ldap_nest [48; 128; 48; 128]%N 5999999 = Some (RFatal F_STACK).
-Proof. vm_compute. reflexivity. Qed.
+Theorem C01_ldap_never_fatal : forall st s, ldap_first st <> Some (RFatal s).
+Proof. exact ldap_never_fatal. Qed.
 
-(* the full statement fails - by the recorded defects - ... *)
-Theorem C01_full_refuted : ~ C01_full.
-Proof. exact full_refuted. Qed.
+Theorem C01_ldap_library_allocations_fine : forall st fuel,
+  ldap_first st = None ->
+  exists buf, ldap_envelope st = EOk buf /\ zlen buf <= MAX_MSG + 6 /\
+              Forall (fun L => alloc_verdict L = 0%N) (lib_allocs fuel buf).
+Proof. exact ldap_library_allocs_fine. Qed.
 
-(* ... and holds for every modelled service outside exactly those classes *)
-Theorem C01_outside_findings : C01_outside.
-Proof. exact outside_findings. Qed.
+(* the indefinite form, by which the nesting witness opened its levels, is refused at once *)
+Theorem C01_ldap_indefinite_refused : forall b0 r, ldap_first (b0 :: 128%N :: r) = Some RErr.
+Proof. exact ldap_indefinite_refused. Qed.
 
-(* non-vacuity: inputs outside the finding classes exist for each hypothesis, and the
-   repaired loop is exercised on the former witnesses *)
-Example C01_outside_nonvacuous :
-  in_oom_class (snmp_tlv [48; 3; 2; 1; 0]%N) = false /\
-  in_oom_class (ldap_tlv [4; 133; 0; 0; 0; 0; 9]%N) = false /\
-  ldap_depth [48; 128; 48; 128; 0; 0]%N 7 < STACK_SURE /\
+(* the full statement holds of the code as it is now, for every modelled service *)
+Theorem C01_full_holds : C01_full.
+Proof. exact full_holds. Qed.
+
+(* non-vacuity: the former witnesses are decided before the libraries; a well-formed
+   request passes the check and the library's allocations on it are listed *)
+Example C01_nonvacuous :
+  snmp_first [48; 133; 64; 0; 0; 0; 0]%N = Some ROk /\
+  ldap_first [4; 133; 64; 0; 0; 0; 0]%N = Some RErr /\
+  ldap_first [48; 128; 48; 128]%N = Some RErr /\
+  snmp_first [48; 3; 2; 1; 0]%N = None /\
+  lib_allocs 5 (snmp_buf [48; 3; 2; 1; 0]%N) = [3; 1] /\
+  ldap_first [48; 5; 2; 1; 5; 66; 0]%N = None /\
   ssh_loop 2 (new_decoder [1]%N) [] = Done [] /\
   ssh_loop 3 (new_decoder [0; 0; 0; 1; 65; 0; 0; 0]%N) [] = Done [[65%N]].
 Proof. vm_compute. repeat split; reflexivity. Qed.
@@ -156,10 +158,11 @@ Print Assumptions C01_counterstrike_never_fatal.
 Print Assumptions C01_adb_never_fatal.
 Print Assumptions C01_alloc_fatal_iff.
 Print Assumptions C01_alloc_small_fine.
-Print Assumptions C01_first_tlv_fatal_iff.
-Print Assumptions C01_ldap_nest_fatal_iff.
-Print Assumptions C01_snmp_oom_refuted.
-Print Assumptions C01_ldap_oom_refuted.
-Print Assumptions C01_ldap_nest_refuted.
-Print Assumptions C01_full_refuted.
-Print Assumptions C01_outside_findings.
+Print Assumptions C01_tlv_lengths_fit_bounds_allocations.
+Print Assumptions C01_snmp_never_fatal.
+Print Assumptions C01_snmp_library_allocations_fine.
+Print Assumptions C01_ldap_envelope_checked.
+Print Assumptions C01_ldap_never_fatal.
+Print Assumptions C01_ldap_library_allocations_fine.
+Print Assumptions C01_ldap_indefinite_refused.
+Print Assumptions C01_full_holds.
